@@ -127,6 +127,23 @@ CLAIMED = {
             "are known findings: F01b (cancelled requeue), F03d (cancelled _run_consumer drops its message), F03e "
             "(cancel after disposition), F14a (finish returns others' messages).",
             "Real-time bound, Redis maintenance/background consumer, Worker.run call order are not decided."),
+    "C08": ("deductive verification of BasicConverter.__init__/convert_inputs, PydanticConverter.__init__/convert_inputs, "
+            "DefaultConverter.__new__ (real bodies; signatures as arrays of parameter records, insertion-ordered dicts, value "
+            "comprehensions as loops with sidecar invariants), two output round-trip harnesses, and a lemma over the four "
+            "contracts (proved through ten intermediate cuts) that both converters produce equal arguments",
+            "Proof that BasicConverter derives from the signature the positional-only names in order with their defaults, the "
+            "other plain parameters by name, the dependency parameters and the catch-all flags; that convert_inputs gives each "
+            "parameter the payload entry of its name or else its default, sends unmatched entries only to a catch-all, never "
+            "passes a made-up value and raises exactly when a required argument is missing (fix F08a); that PydanticConverter "
+            "builds an input model with exactly the non-dependency parameters (required iff no default), refuses *args/**kwargs, "
+            "and fails exactly on invalid text or a missing required field so that a job without arguments runs (fix F08b); that "
+            "DefaultConverter selects pydantic 2, then pydantic 1, then the basic converter; that an untyped return value decodes "
+            "to itself; and that on every payload with a JSON object both converters return equal positional and keyword "
+            "arguments. One clause is a known finding: F08c (a positional spill in front of positional-or-keyword parameters).",
+            "pydantic (create_model, model_validate_json, Field) by assumed contracts: field set, required-iff-Field(), values of "
+            "the annotated types returned unchanged; typed outputs (model_dump_json) delegated to pydantic; JSON text abstract "
+            "(C07's model); the actor call fn(*args, **kwargs) itself (Python's binding) is not under contract except for the "
+            "spill clause; parameter names starting with '__' and Field() objects as declared defaults are excluded by precondition."),
     "C18": ("deductive verification of Depends.__init__/override/_update_subdependencies (quantified invariant over the "
             "signature as an array of parameter records, with a ghost witness map and a proved cut), Depends.resolve and the "
             "dependency part of actor_run",
@@ -137,9 +154,7 @@ CLAIMED = {
             "inspect.signature / get_dependency / asyncify / asyncio.gather by assumed contracts (deterministic, ordered); value flow "
             "through gather and dict(zip()) is not modelled; run_in_process not decided."),
 }
-NOT_APPLICABLE_REASON = ("no contract built: the converter / dependency code needs signatures as sequences of parameter records, "
-                         "insertion-ordered dicts and side-effecting comprehensions over symbolic collections, which the engine "
-                         "does not decide yet (DESIGN.md section 14); not claimed with a bounded check only")
+NOT_APPLICABLE_REASON = "no contract built"
 
 
 def main():
